@@ -1,6 +1,8 @@
 package verifsim
 
 import (
+	"bytes"
+	"encoding/base64"
 	"encoding/binary"
 	"errors"
 	"fmt"
@@ -44,6 +46,10 @@ type C08Scenario struct {
 	Seed      uint64       `json:"seed"`
 }
 
+// alterOtherTransport as C08Present.Alter: present the same sealed block in
+// the other transport's envelope (TLS ClientHello <-> WebSocket upgrade)
+const alterOtherTransport = 1 << 30
+
 const tolMS = 180000
 const cleanMS = 12 * 3600 * 1000
 
@@ -76,6 +82,9 @@ func genC08History(g *Gen) any {
 		}
 		if g.Bool(0.3) {
 			p.N = g.Int(2, 16)
+		}
+		if g.Bool(0.15) {
+			p.Alter = alterOtherTransport
 		}
 		sc.Presents = append(sc.Presents, p)
 	}
@@ -179,7 +188,36 @@ func runC08(c *Ctx, scAny any) {
 		base := time.Now()
 		present := func(alter, n int) {
 			p := append([]byte(nil), pkt...)
-			if alter >= 0 {
+			ptr := tr
+			if alter == alterOtherTransport {
+				// the same sealed block (ephemeral key + ciphertext + tag: 96 public
+				// bytes) lifted into the other transport's first packet
+				var hidden []byte
+				if sc.WS {
+					i := bytes.Index(pkt, []byte("Hidden: "))
+					j := bytes.Index(pkt[i:], []byte("\r\n"))
+					hidden, _ = base64.StdEncoding.DecodeString(string(pkt[i+8 : i+j]))
+					tpl, err := w.FirstPacket(sc.Client, rng)
+					ch, perr := parseClientHello(tpl)
+					if err != nil || perr != nil || len(hidden) != 96 {
+						c.Fail("setup", "hello", "building the other transport's packet: %v %v (%d hidden bytes)", err, perr, len(hidden))
+						return
+					}
+					copy(tpl[ch.RandomOff:], hidden[:32])
+					copy(tpl[ch.SessionIDOff:], hidden[32:64])
+					copy(tpl[ch.KeyShareOff:], hidden[64:96])
+					p, ptr = tpl, server.TLS{}
+				} else {
+					ch, perr := parseClientHello(pkt)
+					if perr != nil {
+						c.Fail("setup", "hello", "%v", perr)
+						return
+					}
+					hidden = append(append(append([]byte(nil), pkt[ch.RandomOff:ch.RandomOff+32]...), pkt[ch.SessionIDOff:ch.SessionIDOff+32]...), pkt[ch.KeyShareOff:ch.KeyShareOff+32]...)
+					p = []byte("GET / HTTP/1.1\r\nHost: 10.0.0.2:443\r\nUpgrade: websocket\r\nConnection: Upgrade\r\nSec-WebSocket-Key: dGhlIHNhbXBsZSBub25jZQ==\r\nSec-WebSocket-Version: 13\r\nHidden: " + b64(hidden) + "\r\n\r\n")
+					ptr = server.WebSocket{}
+				}
+			} else if alter >= 0 {
 				if alter/8 >= len(p) {
 					return
 				}
@@ -188,7 +226,7 @@ func runC08(c *Ctx, scAny any) {
 			pending := n
 			for i := 0; i < n; i++ {
 				simsync.Go("h:present", func() {
-					_, _, err := server.AuthFirstPacket(append([]byte(nil), p...), tr, w.Sta)
+					_, _, err := server.AuthFirstPacket(append([]byte(nil), p...), ptr, w.Sta)
 					results = append(results, outcome{time.Since(base), alter, err, w.Sta.WorldState.Now()})
 					pending--
 				})
@@ -251,7 +289,10 @@ func runC08(c *Ctx, scAny any) {
 			if accepted > 1 {
 				what := "the same first packet"
 				sig := "replayed"
-				if r.alter >= 0 {
+				if r.alter == alterOtherTransport {
+					what = "the same sealed identity block presented in the other transport's first packet"
+					sig = "replayed:other-transport"
+				} else if r.alter >= 0 {
 					what = fmt.Sprintf("a copy with bit %d of byte %d flipped (same sealed identity block)", r.alter%8, r.alter/8)
 					sig = "altered-copy"
 				}
